@@ -3453,8 +3453,8 @@ fn main_san(run: &Run, scratch: &Scratch, kind: &str) {
 fn main_full(run: &Run, scratch: &Scratch, seed: u64) {
 	let tier = run.tier;
 	let t_start = Instant::now();
-	let st_deadline = t_start + Duration::from_secs(tier.pick(40, 520));
-	let n_sessions: u64 = tier.pick(64, 900);
+	let st_deadline = t_start + Duration::from_secs(tier.pick(45, 520));
+	let n_sessions: u64 = tier.pick(96, 900);
 	let n_growth: u64 = tier.pick(2, 10);
 	let progs_per_session = 8usize;
 	let n_st_threads = tier.pick(5, 6);
@@ -3468,8 +3468,8 @@ fn main_full(run: &Run, scratch: &Scratch, seed: u64) {
 			seed: seeds.next_u64() >> 1,
 			dir: scratch.sub(&format!("mt-{}", i)),
 			target_keys: tier.pick(12_500, 30_000),
-			max_batches: tier.pick(1_500, 12_000),
-			max_secs: tier.pick(32, 150),
+			max_batches: tier.pick(2_500, 12_000),
+			max_secs: tier.pick(40, 150),
 			n_point: 3,
 			n_iter: 2,
 			n_hold: if i % 2 == 0 { 1 } else { 2 },
